@@ -354,3 +354,483 @@ def nontrivial_c05(rec):
     starts = [t for _s, typ, t, _k in rec.mon.events if typ == "SCHEDULER_START"]
     pushed = any(b - a > max(1, rec.spec["flags"].get("scheduler_frequency", -1)) for a, b in zip(starts, starts[1:]))
     return competing or pushed
+
+
+# ----------------------------------------------------------------------------- C06
+ALLOWED = {
+    ("VIRTUAL", "RELEASED"), ("VIRTUAL", "SCHEDULED"), ("RELEASED", "SCHEDULED"), ("SCHEDULED", "SCHEDULED"),
+    ("SCHEDULED", "RELEASED"), ("SCHEDULED", "VIRTUAL"), ("SCHEDULED", "RUNNING"), ("RUNNING", "COMPLETED"),
+    ("VIRTUAL", "CANCELLED"), ("RELEASED", "CANCELLED"), ("SCHEDULED", "CANCELLED"),
+    ("VIRTUAL", "VIRTUAL"), ("RELEASED", "RELEASED"),
+}
+
+
+def graph_structure(spec, gname):
+    """names, parents, children, topo order of the job graph `gname` from the spec."""
+    g = next(x for x in spec["graphs"] if x["name"] == gname)
+    names = [j["name"] for j in g["jobs"]]
+    children = {j["name"]: [names[c] for c in j["children"]] for j in g["jobs"]}
+    parents = {n: [] for n in names}
+    for n, cs in children.items():
+        for c in cs:
+            parents[c].append(n)
+    indeg = {n: len(parents[n]) for n in names}
+    order = [n for n in names if indeg[n] == 0]
+    i = 0
+    while i < len(order):
+        for c in children[order[i]]:
+            indeg[c] -= 1
+            if indeg[c] == 0:
+                order.append(c)
+        i += 1
+    jobs = {j["name"]: j for j in g["jobs"]}
+    return names, parents, children, order, jobs
+
+
+def reach_from(children, start):
+    seen, stack = set(), [start]
+    while stack:
+        n = stack.pop()
+        for c in children[n]:
+            if c not in seen:
+                seen.add(c)
+                stack.append(c)
+    return seen
+
+
+def judge_c06(rec):
+    V = []
+    spec = rec.spec
+    tasks = final_tasks(rec)
+    n_unsched = 0
+    for key, trec in rec.mon.tasks.items():
+        released = False
+        for (op, t, before, after, now, seq, err) in trec["history"]:
+            if err is not None:
+                continue  # the guard refused the operation: nothing changed
+            if op == "unschedule":
+                n_unsched += 1
+            if (before, after) not in ALLOWED:
+                V.append(Violation("illegal_transition", f"{key}: {op} moved {before} -> {after} at t={now}; {short(spec)}", f"c06.illegal_transition.{before}_{after}"))
+            if op == "release" and after in ("RELEASED", "SCHEDULED"):
+                released = True
+            if before in ("COMPLETED", "CANCELLED") and after != before:
+                V.append(Violation("left_final_state", f"{key}: {op} moved {before} -> {after}; {short(spec)}", "c06.left_final_state"))
+            if op == "unschedule" and released and after == "VIRTUAL":
+                V.append(Violation("released_task_back_to_virtual", f"{key}: unschedule at t={now} returned an already released task to VIRTUAL; {short(spec)}", "c06.released_task_back_to_virtual"))
+    rec._n_unsched = n_unsched
+    # closure of cancellation, per task graph
+    cancel_rows = {}
+    finished_graph_rows = {}
+    for _i, p in rows_of(rec):
+        if p[1] == "TASK_CANCEL":
+            cancel_rows[(p[2], p[5])] = cancel_rows.get((p[2], p[5]), 0) + 1
+        elif p[1] == "TASK_GRAPH_FINISHED":
+            finished_graph_rows[p[2]] = finished_graph_rows.get(p[2], 0) + 1
+    cascade = False
+    ended_clean = rec.abort is None and rec.exception is None
+    for gname, tg in rec.graphs.items():
+        base = gname.split("@")[0]
+        names, parents, children, order, jobs = graph_structure(spec, base)
+        state = {n: tasks[f"{n}@{gname}"].state.name for n in names if f"{n}@{gname}" in tasks}
+        if len(state) != len(names):
+            continue
+        dead = {n for n in names if state[n] == "CANCELLED"}
+        for n in order:
+            if n in dead or not parents[n]:
+                continue
+            pd = [p in dead for p in parents[n]]
+            must = all(pd) if jobs[n].get("terminal") else any(pd)
+            if must:
+                cascade = True
+                started = bool(history(rec, f"{n}@{gname}", "start"))
+                V.append(
+                    Violation(
+                        "cancellation_not_closed",
+                        f"{n}@{gname} (terminal={jobs[n].get('terminal', False)}) is {state[n]} (started={started}) although parents "
+                        f"{ {p: state[p] for p in parents[n]} } can no longer deliver its inputs; {short(spec)}",
+                        "c06.cancellation_not_closed" + (".nested_conditional" if _nested(spec, base) else ""),
+                    )
+                )
+                dead.add(n)
+        for n in dead:
+            if children[n]:
+                cascade = True
+            if state[n] == "CANCELLED":
+                if history(rec, f"{n}@{gname}", "start"):
+                    V.append(Violation("cancelled_task_ran", f"{n}@{gname} is CANCELLED but has a start; {short(spec)}", "c06.cancelled_task_ran"))
+                if ended_clean and cancel_rows.get((n, gname), 0) != 1:
+                    V.append(Violation("cancel_row", f"{n}@{gname} is CANCELLED but has {cancel_rows.get((n, gname), 0)} TASK_CANCEL rows; {short(spec)}", "c06.cancel_row_count"))
+        sinks = [n for n in names if not children[n]]
+        complete = all(state[n] == "COMPLETED" for n in sinks)
+        rows = finished_graph_rows.get(gname, 0)
+        if complete != (rows == 1) or rows > 1:
+            V.append(Violation("graph_finished_row", f"{gname}: sinks { {n: state[n] for n in sinks} } but {rows} TASK_GRAPH_FINISHED rows; {short(spec)}", "c06.graph_finished_row"))
+        try:
+            if bool(tg.is_complete()) != complete:
+                V.append(Violation("is_complete", f"{gname}: TaskGraph.is_complete()={tg.is_complete()} but sinks { {n: state[n] for n in sinks} }", "c06.is_complete"))
+        except Exception as e:
+            V.append(Violation("is_complete_raises", f"{gname}: {type(e).__name__}: {e}", "c06.is_complete_raises"))
+    rec._cascade = cascade
+    return V[:6]
+
+
+def _nested(spec, gname):
+    """Does the graph contain a conditional node inside another conditional's branch?"""
+    names, parents, children, order, jobs = graph_structure(spec, gname)
+    conds = [n for n in names if jobs[n].get("conditional")]
+    for c in conds:
+        inside = reach_from(children, c)
+        if any(o != c and o in inside for o in conds):
+            return True
+    return False
+
+
+def nontrivial_c06(rec):
+    return getattr(rec, "_cascade", False) or getattr(rec, "_n_unsched", 0) > 0
+
+
+# ----------------------------------------------------------------------------- C07
+def matching_terminal(names, parents, children, order, jobs, cond):
+    kids = children[cond]
+    if not kids:
+        return None
+    common = None
+    for k in kids:
+        r = reach_from(children, k) | {k}
+        common = r if common is None else common & r
+    terms = [n for n in order if n in common and jobs[n].get("terminal")]
+    return terms[0] if terms else None
+
+
+def judge_c07(rec):
+    V = []
+    spec = rec.spec
+    tasks = final_tasks(rec)
+    resolved = 0
+    strict = rec.abort is None and rec.exception is None and spec["flags"].get("loop_timeout") is None
+    for gname in rec.graphs:
+        base = gname.split("@")[0]
+        names, parents, children, order, jobs = graph_structure(spec, base)
+        state = {n: tasks[f"{n}@{gname}"].state.name for n in names if f"{n}@{gname}" in tasks}
+        if len(state) != len(names):
+            continue
+        for c in names:
+            if not jobs[c].get("conditional") or state[c] != "COMPLETED":
+                continue
+            kids = children[c]
+            if len(kids) < 1:
+                continue
+            fin = history(rec, f"{c}@{gname}", "finish")
+            seq_fin = fin[0][5] if fin else 0
+            released = [k for k in kids if any(h[0] == "release" and h[5] > seq_fin for h in history(rec, f"{k}@{gname}"))]
+            alive = [k for k in kids if state[k] != "CANCELLED"]
+            init_p = {k: rec.mon.initial_prob.get(f"{k}@{gname}", jobs[k].get("probability", 1.0)) for k in kids}
+            if sum(1 for k in kids if init_p[k] > 0) >= 2:
+                resolved += 1
+            tag = ".nested" if _nested(spec, base) else ""
+            all_zero = all(init_p[k] <= 0 for k in kids)
+            if all_zero:
+                if alive and strict:
+                    V.append(Violation("zero_probability_branch_alive", f"{c}@{gname}: all children have probability 0 but {alive} are not cancelled; {short(spec)}", "c07.zero_probability_branch_alive" + tag))
+                continue
+            if len(alive) != 1:
+                if strict or len(alive) > 1:
+                    V.append(Violation("not_exactly_one_branch", f"{c}@{gname} completed; children states { {k: state[k] for k in kids} } probabilities {init_p}; {short(spec)}", "c07.not_exactly_one_branch" + tag))
+                continue
+            taken = alive[0]
+            if init_p[taken] <= 0:
+                V.append(Violation("zero_probability_branch_taken", f"{c}@{gname}: took {taken} with probability {init_p[taken]} ({init_p}); {short(spec)}", "c07.zero_probability_branch_taken" + tag))
+            if spec["flags"].get("resolve_conditionals_at_submission") and init_p[taken] != 1.0:
+                V.append(Violation("not_the_branch_resolved_at_submission", f"{c}@{gname}: took {taken}, probabilities at submission {init_p}; {short(spec)}", "c07.not_the_branch_resolved_at_submission" + tag))
+            if released and released != [taken]:
+                V.append(Violation("released_children", f"{c}@{gname}: released {released} but live child is {taken}; {short(spec)}", "c07.released_children" + tag))
+            T = matching_terminal(names, parents, children, order, jobs, c)
+            if T is None:
+                continue
+            after_T = reach_from(children, T) | {T}
+            for k in kids:
+                if k == taken:
+                    continue
+                inside = (reach_from(children, k) | {k}) - after_T
+                # nodes shared with the taken branch cannot exist in well-formed regions
+                for n in inside:
+                    if state[n] != "CANCELLED" or history(rec, f"{n}@{gname}", "start"):
+                        V.append(
+                            Violation(
+                                "untaken_branch_not_cancelled",
+                                f"{c}@{gname} took {taken}; {n} on the branch of {k} is {state[n]} (started={bool(history(rec, f'{n}@{gname}', 'start'))}); {short(spec)}",
+                                "c07.untaken_branch_not_cancelled" + tag,
+                            )
+                        )
+                        break
+            if strict and getattr(rec, "_c07_must_finish", False):
+                # the join and everything after it ran exactly once - unless an enclosing branch was itself not taken
+                for n in after_T:
+                    if state[n] == "CANCELLED":
+                        continue  # judged by the enclosing conditional
+                    st = history(rec, f"{n}@{gname}", "start")
+                    if state[n] != "COMPLETED" or len(st) != 1:
+                        V.append(Violation("join_or_successor_did_not_run", f"{c}@{gname} took {taken}; {n} (after join {T}) is {state[n]} with {len(st)} starts; {short(spec)}", "c07.join_or_successor_did_not_run" + tag))
+                        break
+    rec._resolved = resolved
+    return V[:6]
+
+
+def nontrivial_c07(rec):
+    return getattr(rec, "_resolved", 0) > 0
+
+
+# ----------------------------------------------------------------------------- C08
+def judge_c08(rec):
+    import os
+
+    from pbt import env
+
+    V = []
+    spec = rec.spec
+    if rec.abort is not None or rec.exception is not None:
+        return V  # no complete trace to judge (C05 owns crashes)
+    tasks = final_tasks(rec)
+    rows = rows_of(rec)
+    by_kind = {}
+    for i, p in rows:
+        by_kind.setdefault(p[1], []).append(p)
+    n_cancel = n_miss = n_fin_graph = 0
+
+    def bad(clause, detail, tag=""):
+        V.append(Violation(clause, f"{detail}; {short(spec)}", f"c08.{clause}{tag}"))
+
+    # ---- per-task rows ------------------------------------------------------------
+    idx = {}
+    for key, t in tasks.items():
+        idx[t.id] = (key, t)
+    seen = {"TASK_RELEASE": {}, "TASK_FINISHED": {}, "TASK_CANCEL": {}, "MISSED_DEADLINE": {}, "TASK_PLACEMENT": {}}
+    for p in by_kind.get("TASK_RELEASE", []):
+        tid = p[7]
+        seen["TASK_RELEASE"][tid] = seen["TASK_RELEASE"].get(tid, 0) + 1
+        if tid not in idx:
+            bad("release_row_unknown_task", f"row {p}")
+            continue
+        key, t = idx[tid]
+        rel = history(rec, key, "release")
+        exp_t = rel[0][4] if rel else None
+        strat = t.available_execution_strategies.get_slowest_strategy()
+        truth = [p[0], "TASK_RELEASE", t.name, str(t.timestamp), str(us(t.intended_release_time)), str(us(t.release_time)),
+                 str(us(t.deadline)), t.id, t.task_graph, str(us(strat.runtime))]
+        if p[:10] != truth or exp_t is None or int(p[0]) != exp_t or int(p[5]) != exp_t:
+            bad("release_row", f"row {p} expected {truth} at t={exp_t}")
+    for p in by_kind.get("TASK_PLACEMENT", []):
+        tid = p[5]
+        seen["TASK_PLACEMENT"][tid] = seen["TASK_PLACEMENT"].get(tid, 0) + 1
+        if tid not in idx:
+            bad("placement_row_unknown_task", f"row {p}")
+            continue
+        key, t = idx[tid]
+        st = history(rec, key, "start")
+        pl = rec.mon.placements.get(key, [])
+        if not st or not pl:
+            bad("placement_row_without_start", f"row {p}")
+            continue
+        when, wname, runtime, demand, pool_id = pl[-1]
+        alloc = {}
+        for j in range(8, len(p) - 2, 3):
+            alloc[p[j]] = alloc.get(p[j], 0) + int(p[j + 2])
+        if int(p[0]) != st[0][1] or p[6] != pool_id or int(p[7]) != runtime or alloc != demand:
+            bad("placement_row", f"row {p}: start={st[0][1]} pool={pool_id} runtime={runtime} demand={demand}")
+    for p in by_kind.get("TASK_FINISHED", []):
+        tid = p[7]
+        seen["TASK_FINISHED"][tid] = seen["TASK_FINISHED"].get(tid, 0) + 1
+        if tid not in idx:
+            bad("finished_row_unknown_task", f"row {p}")
+            continue
+        key, t = idx[tid]
+        truth = [str(us(t.completion_time)), "TASK_FINISHED", t.name, str(t.timestamp), t.task_graph, str(us(t.completion_time)), str(us(t.deadline)), t.id]
+        if p != truth or t.state.name != "COMPLETED":
+            bad("finished_row", f"row {p} expected {truth} state {t.state.name}")
+    for p in by_kind.get("TASK_CANCEL", []):
+        tid = p[4]
+        seen["TASK_CANCEL"][tid] = seen["TASK_CANCEL"].get(tid, 0) + 1
+        if tid not in idx:
+            bad("cancel_row_unknown_task", f"row {p}")
+            continue
+        key, t = idx[tid]
+        c = history(rec, key, "cancel")
+        if t.state.name != "CANCELLED" or not c or int(p[0]) != c[0][1] or p[2] != t.name or p[5] != t.task_graph:
+            bad("cancel_row", f"row {p}: task state {t.state.name}, cancel history {c[:1]}")
+    for p in by_kind.get("MISSED_DEADLINE", []):
+        tid = p[5]
+        seen["MISSED_DEADLINE"][tid] = seen["MISSED_DEADLINE"].get(tid, 0) + 1
+    n_completed = n_cancelled = n_late = 0
+    for key, t in tasks.items():
+        st = t.state.name
+        late = st == "COMPLETED" and us(t.completion_time) > us(t.deadline)
+        n_completed += st == "COMPLETED"
+        n_cancelled += st == "CANCELLED"
+        n_late += late
+        if (seen["MISSED_DEADLINE"].get(t.id, 0) == 1) != late or seen["MISSED_DEADLINE"].get(t.id, 0) > 1:
+            bad("missed_deadline_row", f"{key}: completion {us(t.completion_time)} deadline {us(t.deadline)} state {st} but {seen['MISSED_DEADLINE'].get(t.id, 0)} MISSED_DEADLINE rows")
+        if (st == "COMPLETED") != (seen["TASK_FINISHED"].get(t.id, 0) == 1):
+            bad("finished_row_count", f"{key}: state {st} with {seen['TASK_FINISHED'].get(t.id, 0)} TASK_FINISHED rows")
+        if (st == "CANCELLED") != (seen["TASK_CANCEL"].get(t.id, 0) == 1):
+            bad("cancel_row_count", f"{key}: state {st} with {seen['TASK_CANCEL'].get(t.id, 0)} TASK_CANCEL rows")
+        if bool(history(rec, key, "start")) != (seen["TASK_PLACEMENT"].get(t.id, 0) == 1):
+            bad("placement_row_count", f"{key}: {len(history(rec, key, 'start'))} starts with {seen['TASK_PLACEMENT'].get(t.id, 0)} TASK_PLACEMENT rows")
+        if bool(history(rec, key, "release")) != (seen["TASK_RELEASE"].get(t.id, 0) >= 1):
+            bad("release_row_count", f"{key}: released={bool(history(rec, key, 'release'))} with {seen['TASK_RELEASE'].get(t.id, 0)} TASK_RELEASE rows")
+        n_cancel += st == "CANCELLED"
+        n_miss += late
+    # ---- graphs ---------------------------------------------------------------------
+    g_rel = {p[4]: p for p in by_kind.get("TASK_GRAPH_RELEASE", [])}
+    g_fin = {p[2]: p for p in by_kind.get("TASK_GRAPH_FINISHED", [])}
+    fin_graphs = canc_graphs = late_graphs = 0
+    truth_graph = {}
+    for gname, tg in rec.graphs.items():
+        nodes = list(tg.get_nodes())
+        sinks = [t for t in nodes if not tg.get_children(t)]
+        complete = all(t.state.name == "COMPLETED" for t in sinks)
+        cancelled = any(t.state.name == "CANCELLED" for t in sinks)
+        deadline = max(us(t.deadline) for t in nodes)
+        comp = max(us(t.completion_time) for t in sinks) if complete else None
+        truth_graph[gname] = (complete, cancelled, deadline, comp, len(nodes))
+        fin_graphs += complete
+        canc_graphs += cancelled
+        late_graphs += bool(complete and comp > deadline)
+        if complete:
+            n_fin_graph += 1
+        closed = "closed_loop" if spec_release_kind(spec, gname) == "closed_loop" else ""
+        rel_t0 = min(us(t.release_time) for t in nodes if not tg.get_parents(t))
+        if gname not in g_rel and rel_t0 > rec.end_time:
+            pass  # released after the end of the run: no row expected
+        elif gname not in g_rel:
+            bad("graph_release_row_missing", f"task graph {gname} has no TASK_GRAPH_RELEASE row", ".closed_loop" if closed else "")
+        else:
+            p = g_rel[gname]
+            rel_t = min(us(t.release_time) for t in nodes if not tg.get_parents(t))
+            if int(p[5]) != len(nodes) or int(p[3]) != deadline:
+                bad("graph_release_row", f"row {p}: {len(nodes)} tasks, deadline {deadline}, release {rel_t}")
+        if complete:
+            p = g_fin.get(gname)
+            if p is None or int(p[0]) != comp or int(p[3]) != deadline or int(p[4]) != max(0, comp - deadline):
+                bad("graph_finished_row", f"{gname}: completed at {comp}, deadline {deadline}, row {p}")
+    # ---- scheduler rows ---------------------------------------------------------------
+    starts = by_kind.get("SCHEDULER_START", [])
+    fins = by_kind.get("SCHEDULER_FINISHED", [])
+    if len(starts) != len(rec.mon.sched) or len(fins) != len(rec.mon.sched):
+        bad("scheduler_row_count", f"{len(rec.mon.sched)} invocations, {len(starts)} SCHEDULER_START rows, {len(fins)} SCHEDULER_FINISHED rows")
+    else:
+        for s, ps, pf in zip(rec.mon.sched, starts, fins):
+            placed = sum(1 for pl in s["placements"] if pl["type"] == "PLACE_TASK" and pl["placed"])
+            unplaced = sum(1 for pl in s["placements"] if pl["type"] == "PLACE_TASK" and not pl["placed"])
+            offered = len(s["offers"][0]) if s["offers"] else None
+            if int(ps[0]) != s["time"] or int(ps[3]) != s.get("resident", int(ps[3])):
+                bad("scheduler_start_row", f"row {ps}: invocation at {s['time']} with {s.get('resident')} running tasks")
+            if offered is not None and int(ps[2]) != offered:
+                # root cause classifier: the simulator counts with scheduler.policy (RANDOM for the greedy
+                # policies) while the policy fetches its tasks with the default ALL; the two only differ when
+                # not-yet-released tasks of a graph with conditionals are offered ahead of time (see C18).
+                has_cond = any(j.get("conditional") for g in spec["graphs"] for j in g["jobs"])
+                bad("scheduler_start_offer_count", f"row {ps}: the policy was offered {offered} tasks {s['offers'][0]}",
+                    ".branch_policy_mismatch_on_early_offer" if has_cond else "")
+            if int(pf[3]) != placed:
+                bad("scheduler_finished_placed", f"row {pf}: {placed} tasks placed")
+            if int(pf[4]) != unplaced:
+                bad("scheduler_finished_unplaced", f"row {pf}: {unplaced} PLACE_TASK decisions left unplaced")
+                break
+    # ---- end-of-run summary -------------------------------------------------------------
+    end = by_kind.get("SIMULATOR_END", [])
+    if len(end) == 1:
+        p = end[0]
+        truth = [n_completed, n_cancelled, n_late, fin_graphs, canc_graphs, late_graphs]
+        got = [int(x) for x in p[2:8]]
+        names = ["finished_tasks", "cancelled_tasks", "missed_task_deadlines", "finished_task_graphs", "cancelled_task_graphs", "missed_task_graph_deadlines"]
+        for n, g, tr in zip(names, got, truth):
+            if g != tr:
+                bad("summary_" + n, f"SIMULATOR_END says {n}={g}, truth {tr} (row {p})")
+    # ---- the project's own reader ---------------------------------------------------------
+    path = os.path.join(env.WORK_DIR, f"c08_{os.getpid()}.csv")
+    with open(path, "w") as f:
+        f.write("\n".join(rec.rows) + "\n")
+    try:
+        from data import CSVReader
+
+        try:
+            reader = CSVReader([path])
+        except Exception as e:
+            cause = e.__cause__ or e
+            line = str(e)[:160]
+            kind = next((k for k in ("TASK_CANCEL", "TASK_GRAPH_FINISHED", "MISSED_TASK_GRAPH_DEADLINE", "TASK_FINISHED", "TASK_PLACEMENT") if f"'{k}'" in line), "summary_assertion")
+            tag = ""
+            if any(g["release"]["kind"] == "closed_loop" for g in spec["graphs"]) and isinstance(cause, KeyError):
+                tag = ".closed_loop"
+            if isinstance(cause, AssertionError):
+                # which of the reader's three summary assertions fails, and why
+                r_cancel = set()
+                for _i, p in rows:
+                    if p[1] == "TASK_CANCEL":
+                        r_cancel.add(p[5])
+                    elif p[1] == "TASK_GRAPH_FINISHED":
+                        r_cancel.discard(p[2])
+                truth_cancel = {g for g, tr in truth_graph.items() if tr[1]}
+                extra = r_cancel - truth_cancel
+                if extra and all(any(j.get("conditional") for j in graph_structure(spec, g.split("@")[0])[4].values()) for g in extra):
+                    tag = ".unfinished_graph_with_cancelled_branch_counted_as_dropped"
+                elif extra:
+                    tag = ".reader_counts_more_dropped_graphs"
+                elif truth_cancel - r_cancel:
+                    tag = ".reader_counts_fewer_dropped_graphs"
+            bad("reader_rejects_trace", f"CSVReader raised {type(e).__name__}({type(cause).__name__}: {cause}) {line}", f".{type(cause).__name__}.{kind}{tag}")
+            return V[:8]
+        simr = reader._simulators[path]
+        rt = {t.task_id: t for t in simr.tasks}
+        for key, t in tasks.items():
+            r = rt.get(t.id)
+            if history(rec, key, "release"):
+                if r is None:
+                    bad("reader_task_missing", f"{key} not reconstructed")
+                    continue
+                st = history(rec, key, "start")
+                truth = (us(t.release_time), us(t.deadline), us(t.completion_time) if t.state.name == "COMPLETED" else None,
+                         st[0][1] if st else None, t.state.name == "CANCELLED",
+                         t.state.name == "COMPLETED" and us(t.completion_time) > us(t.deadline))
+                got = (r.release_time, r.deadline, r.completion_time, r.start_time if r.was_placed else None, r.cancelled, r.missed_deadline)
+                if truth != got:
+                    bad("reader_task_mismatch", f"{key}: reader {got} truth {truth}")
+        for gname, (complete, cancelled, deadline, comp, n) in truth_graph.items():
+            r = simr.task_graphs.get(gname)
+            if r is None:
+                if gname in g_rel:
+                    bad("reader_graph_missing", f"{gname} not reconstructed")
+                continue
+            if (r.was_completed, r.completion_at, r.deadline, r.num_tasks) != (complete, comp, deadline, n):
+                bad("reader_graph_mismatch", f"{gname}: reader completed={r.was_completed} at {r.completion_at} deadline {r.deadline} n={r.num_tasks}; truth {truth_graph[gname]}")
+            elif bool(r.cancelled) != bool(cancelled):
+                bad("reader_graph_cancelled_flag", f"{gname}: reader cancelled={r.cancelled}, truth: sinks cancelled={cancelled}, complete={complete}")
+        if len(simr.scheduler_invocations) != len(rec.mon.sched):
+            bad("reader_scheduler_invocations", f"{len(simr.scheduler_invocations)} vs {len(rec.mon.sched)}")
+    finally:
+        try:
+            os.remove(path)
+        except OSError:
+            pass
+    rec._c08_classes = {"cancel": n_cancel > 0, "miss": n_miss > 0, "finished_graph": n_fin_graph > 0}
+    # de-duplicate by signature
+    out, sigs = [], set()
+    for v in V:
+        if v.sig not in sigs:
+            sigs.add(v.sig)
+            out.append(v)
+    return out[:8]
+
+
+def spec_release_kind(spec, gname):
+    base = gname.split("@")[0]
+    for g in spec["graphs"]:
+        if g["name"] == base:
+            return g["release"]["kind"]
+    return None
+
+
+def nontrivial_c08(rec):
+    c = getattr(rec, "_c08_classes", {})
+    return any(c.values())
